@@ -7,6 +7,7 @@ first byte of the number).  With the line bookkeeping invariant of `Proof/PMHoar
 the current line, hence `(line, column)` is inside the input.
 -/
 import Flussab.Proof.Btor2ParserSafe
+import Flussab.Proof.Btor2ErrorAt
 
 namespace Flussab.C08
 open Flussab Flussab.Btor2 PM Lines
@@ -40,6 +41,37 @@ theorem btor2_number_error_at_token_start {b : VBytes} {f : Bool} {lr : LR} (h :
     · cases h1
     · cases h1; exact ⟨rfl, rfl⟩
 
+/-- **Every `required_*` token reports its syntax error at the first byte of the token**: the space
+between tokens, node / sort ids, widths and counts, indices, the node and the sort keyword, the
+three constant forms.  If one of them fails with `syntax line:column` from the state `lr`, then
+`line` is the current line and `column` the column of the cursor of `lr` — where the missing,
+garbled, `0`-prefixed or out-of-range token starts.  (From any state; the two error exits are
+`unexpected` after a Fallthrough that consumed nothing and `exceeds_count` at the mark.) -/
+theorem btor2_required_error_at_token_start (lr lr' : LR) (l c : Nat) :
+    (requiredSpace.run lr = (.error (.syn l c), lr') ∨
+     requiredNodeId.run lr = (.error (.syn l c), lr') ∨
+     requiredSortId.run lr = (.error (.syn l c), lr') ∨
+     requiredPositiveInt.run lr = (.error (.syn l c), lr') ∨
+     requiredNonnegativeInt.run lr = (.error (.syn l c), lr') ∨
+     (orGiveUp nodeToken unexpected).run lr = (.error (.syn l c), lr') ∨
+     (orGiveUp sortToken unexpected).run lr = (.error (.syn l c), lr') ∨
+     requiredBinaryConstant.run lr = (.error (.syn l c), lr') ∨
+     requiredDecimalConstant.run lr = (.error (.syn l c), lr') ∨
+     requiredHexConstant.run lr = (.error (.syn l c), lr')) →
+    l = lr.line ∧ c = lr.v.pos - lr.lineStart + 1 := by
+  intro h
+  rcases h with h | h | h | h | h | h | h | h | h | h
+  · exact (requiredSpace_at (lr := lr)).of_run.2 _ _ h
+  · exact (requiredId_at (lr := lr)).of_run.2 _ _ h
+  · exact (requiredId_at (lr := lr)).of_run.2 _ _ h
+  · exact (requiredId_at (lr := lr)).of_run.2 _ _ h
+  · exact (requiredNonneg_at (lr := lr)).of_run.2 _ _ h
+  · exact (requiredKeyword_at (lr := lr) Gen.Btor2.nodeToken).of_run.2 _ _ h
+  · exact (requiredKeyword_at (lr := lr) Gen.Btor2.sortToken).of_run.2 _ _ h
+  · exact (requiredConstant_at (lr := lr) binaryString (scanWhile_scanLa _)).of_run.2 _ _ h
+  · exact (requiredConstant_at (lr := lr) decimalString decimalString_scanLa).of_run.2 _ _ h
+  · exact (requiredConstant_at (lr := lr) hexString (scanWhile_scanLa _)).of_run.2 _ _ h
+
 /-- Non-vacuity / regression for F11: `2 uext 1 1 18446744073709551616` — the error is at line 1,
 column 12, the first byte of the overflowing pad width (on the pinned tree: column 1). -/
 example :
@@ -51,9 +83,11 @@ example :
 /-- The catalogue clause of C08 for the numeric-overflow class (F11), at document level: replace a
 numeral token of an accepted document by a digit string whose value does not fit in `u64`; if the
 result is rejected, the error is on the line of the token and its column lies on the token.
-(Proved at token level: `btor2_number_error_at_token_start`; lifting it through `next_line`
-needs the position of every number token of an accepted document, which is the C03/C06 analysis
-of the parser.  The whole catalogue — also replaced keywords, `0`-prefixed numerals, garbage —
+(Proved at token level — `btor2_number_error_at_token_start`, and for every kind of token
+`btor2_required_error_at_token_start`.  Lifting it to documents needs that the parse of the
+modified line behaves like the parse of the original one up to the replaced token — prefix
+determinism *inside* a line, a relational pass over the parser that has not been done; between
+lines it is available: `C04.btor2_fault_prefix`, `C06.btor2_accepted_is_canonical`.  The whole catalogue — also replaced keywords, `0`-prefixed numerals, garbage —
 is checked on the implementation by the `corrupt` family of engine `btor2`, whose token spans
 come from the writer.)  Not discharged. -/
 def btor2_overflow_error_on_token_full : Prop :=
